@@ -167,6 +167,18 @@ def build_kwargs(problem, cfg, trace, hooks=None, checkpoint=None, x0=None):
             v = P.f(xr)
         if sc != 1.0:
             v = v * sc
+        if cfg.get("fp_sensitive") and not np.iscomplexobj(xr):
+            # an objective that depends on NumPy's floating-point error state (fast formula, fallback on FloatingPointError): at its first
+            # call it sets the state it needs, as lazily initialised user code does; whenever it later finds another state than the one
+            # it left, it takes its other branch - modelled as a value lower by 1000 (1 + |f|)
+            if not gbuf.get("fp_init"):
+                gbuf["fp_init"] = True
+                np.seterr(over="warn", invalid="warn", under="warn")
+            else:
+                st_ = np.geterr()
+                if (st_["over"], st_["invalid"], st_["under"]) != ("warn", "warn", "warn"):
+                    trace.fp_state_changes = getattr(trace, "fp_state_changes", 0) + 1
+                    v = v - 1000.0 * (1.0 + abs(v))
         trace.evals.append(("f", xr, v))
         if cfg.get("reuse_value_buffer") and not np.iscomplexobj(xr):
             # a user whose objective writes its value into one preallocated one-element array and returns that array
@@ -300,6 +312,8 @@ def build_kwargs(problem, cfg, trace, hooks=None, checkpoint=None, x0=None):
             kw["ftarget"] = cfg["ftarget"]
     if cfg.get("logger"):
         cl = CapturingLogger()
+        if cfg.get("logger") in ("WARNING", "INFO", "ERROR"):
+            cl.logger.setLevel(getattr(logging, cfg["logger"]))  # a logger the user never configured below WARNING, or set to INFO
         trace.log_records = cl.records
         kw["logger"] = cl.logger
     s = cfg.get("scaler")
@@ -343,7 +357,8 @@ def build_kwargs(problem, cfg, trace, hooks=None, checkpoint=None, x0=None):
                         getattr(state, fld)[:] = np.nan  # ... and the arrays of the state it was handed (they are the user's to keep or to overwrite)
                     except (ValueError, TypeError, AttributeError):
                         pass
-            return False
+            # "do not stop", as users write it: the literal False, a NumPy boolean from a comparison, 0, or nothing at all
+            return (False, np.False_, 0, None, 0.0)[i % 5] if cfg.get("cb_falsy_variants", True) else False
 
         kw["callback"] = callback
     u = cfg.get("ufd")
